@@ -94,9 +94,15 @@ def run(repo: Repo, rep: Report, tier: str) -> None:
         body = [norm(s) for s in t_type[0].ast.body if not norm(s).startswith("LOGGER")]
         rep.check(body == ["self.event_queue.put('Evt19')", "return"], "containment", fq, f"unknown type: {body}", "an unknown PDU type is Evt19 (unrecognised PDU)", mod=dul, node=t_type[0].ast)
     rep.check(len(t_len) == 1 and cfg.dominates(t_len[0], dec), "containment", fq, "len(bytestream) != 6 + pdu_length -> Evt17 before decoding", "a PDU shorter than its length field must never reach the decoder", mod=dul, node=rd)
-    hdr = [s for s in walk_no_nested(rd) if isinstance(s, ast.Assign) and "struct.unpack" in norm(s.value)]
-    okh = len(hdr) == 1 and norm(hdr[0].value) == "struct.unpack('>BBL', bytestream)" and norm(hdr[0].targets[0]) in ("(pdu_type, _, pdu_length)", "pdu_type, _, pdu_length")
-    rep.check(okh, "containment", fq, hdr[0] if hdr else "header unpack", "the header is type(1) reserved(1) length(4, big-endian)", mod=dul, node=rd)
+    from .c03 import header_fields
+    hf = header_fields(rd)
+    for name, want in (("pdu_type", (0, 1)), ("pdu_length", (2, 4))):
+        got = hf.get(name)
+        if got is None:
+            rep.defer(f"{fq}: how {name} is taken from the header was not recognised")
+            continue
+        okh = got[0][:2] == want and (want[1] == 1 or got[0][2] == "big") and got[1] == "bytestream"
+        rep.check(okh, "containment", fq, f"{name} <- bytes [{got[0][0]}:{got[0][0] + got[0][1]}] {got[0][2]}-endian of {got[1]}", "the header is type(1) reserved(1) length(4, big-endian)", mod=dul, node=got[2])
 
     # ---- escape -------------------------------------------------------------------
     check_survival(repo, rep, rm, "escape")
@@ -105,6 +111,9 @@ def run(repo: Repo, rep: Report, tier: str) -> None:
     from .c03 import check_ready_probe
     rep.rule("ready-probe", "the readiness probe sees TLS-buffered data on every SSLSocket, whichever side wrapped it")
     check_ready_probe(repo, rep, "ready-probe")
+    from .c03 import check_header_guard
+    rep.rule("header-guard", "a header of fewer than 6 bytes is turned into Evt17 (try/except struct.error or a dominating length test), never an escaping exception")
+    check_header_guard(repo, rep, "header-guard")
 
     # ---- termination ----------------------------------------------------------------
     loops = [
